@@ -176,6 +176,7 @@ impl<'tcx> Cx<'tcx> {
             Rvalue::UnaryOp(op, o) => format!(r#"{{"r":"un","op":"{:?}","a":{}}}"#, op, self.operand(o, env)),
             Rvalue::Cast(kind, o, t) => format!(r#"{{"r":"cast","kind":{},"a":{},"to":{}}}"#, esc(&format!("{:?}", kind)), self.operand(o, env), self.ty(*t)),
             Rvalue::Ref(_, bk, p) => format!(r#"{{"r":"ref","mut":{},"place":{}}}"#, matches!(bk, BorrowKind::Mut { .. }), self.place(p)),
+            Rvalue::RawPtr(_, p) => format!(r#"{{"r":"ref","mut":false,"raw":true,"place":{}}}"#, self.place(p)),
             Rvalue::Discriminant(p) => format!(r#"{{"r":"discr","place":{}}}"#, self.place(p)),
             Rvalue::CopyForDeref(p) => format!(r#"{{"r":"use","op":{{"o":"copy","place":{}}}}}"#, self.place(p)),
             Rvalue::Aggregate(kind, ops) => {
